@@ -212,10 +212,20 @@ let () =
        | "hashes" -> enc_class (wrap (hashes_enc (lst hexb)))
        | "nodeaddr" -> enc_class (COk (if benc then nodeaddr_marshal_benc (parse_addr d) else nodeaddr_marshal (parse_addr d)))
        | "nodeinfo" -> enc_class (COk (nodeinfo_marshal (parse_info d)))
+       | "id" when benc -> enc_class (COk (id_marshal_benc (hexb d)))
+       | "error" when benc ->
+         (match split_on ':' d with
+          | [c; m] -> enc_class (COk (error_marshal_benc { e_code = z_of_dec c; e_msg = hexb m }))
+          | _ -> "?")
+       | "bloom" when benc -> enc_class (wrap (COk (hexb d)))   (* a [256]byte: the bencode string of its bytes *)
        | _ -> "?")
     | _ -> "?" in
   reg "mb" (fun a _ -> marshal false a);
   reg "mbc" (fun a _ -> marshal true a);
+  (* `mbf <form> <type> <dump>`: the value handed to bencode.Marshal inside a container (by value, by pointer, struct
+     field, interface{}, map, list ...); the harness prints the piece found inside the container's wrapper, which is the
+     value's own MarshalBencode result whatever the form *)
+  reg "mbf" (fun a _ -> match a with _form :: rest -> marshal true rest | _ -> "?");
   reg "nfw" (fun a obs -> match a with
     | [d] ->
       let l = (match parse_list parse_info d with Some l -> l | None -> []) in
